@@ -340,10 +340,13 @@ class Path:
                     out.append(n.id)
         return out
 
-    def sub(self, stmts, label, havoc, inherit=True):
-        """path set of a nested body; loop-carried / assigned variables start as fresh symbols"""
+    def new_nid(self):
         self.nodes += 1
-        nid = "%s%d" % (self.scope, self.nodes)
+        return "%s%d" % (self.scope, self.nodes)
+
+    def sub(self, stmts, label, havoc, inherit=True, nid=None):
+        """path set of a nested body; loop-carried / assigned variables start as fresh symbols"""
+        nid = nid or self.new_nid()
         entry = tuple((v, canon(self.read(v)) if v in self.env else "-") for v in havoc)
         base_env = dict(self.env)
         for v in havoc:
@@ -434,9 +437,11 @@ class Path:
             names = self.assigned([s])
             if isinstance(s, ast.For):
                 it = self.text(s.iter)
-                pre = [ast.Assign(targets=[s.target], value=ast.Name(id="__item__", ctx=ast.Load()))]
+                nid = self.new_nid()
+                # the element of this loop's iterable: a symbol of its own for every loop node
+                pre = [ast.Assign(targets=[s.target], value=ast.Name(id="__item__%s" % nid.replace(".", "_"), ctx=ast.Load()))]
                 ast.fix_missing_locations(ast.Module(body=pre, type_ignores=[]))
-                node = self.sub(pre + s.body, "for", names, inherit=False)
+                node = self.sub(pre + s.body, "for", names, inherit=False, nid=nid)
                 node = node + (it,)
             else:
                 guard = [ast.If(test=ast.UnaryOp(op=ast.Not(), operand=s.test), body=[ast.Break()], orelse=[])]
